@@ -166,7 +166,7 @@ def _next_loss(rng, ref_guess, style):
         return rng.uniform(-2.0, 2.0)
     if c < 8:
         return ref_guess                                  # exactly equal: not an improvement
-    if c < 12:
+    if c < 10:
         return 0.0                                        # a perfect fit
     if c < 55:
         return ref_guess * rng.choice([0.5, 0.75, 0.9, rng.uniform(0.05, 0.999)])   # improvement
@@ -190,6 +190,10 @@ def gen_case(rng, max_steps):
     style = rng.choice(["pos", "pos", "pos", "signed"])
     scripted = rng.below(4) == 0
     steps = rng.randint(1, max_steps)
+    if alpha == 0.1:
+        # 0.1 is m/2^55: every learn adds 55 bits to the exact estimate of that action and Coq's rational arithmetic
+        # is quadratic in the size (a greedy agent may put all learns on one action): 64 rounds stay under ~2 s
+        steps = min(steps, 64)
     ops = []
 
     def policy_op():
@@ -218,6 +222,10 @@ def gen_case(rng, max_steps):
             ops.append({"k": "learn", "a": None, "r": None})
             if rng.below(60) == 0:
                 ops.append({"k": "reset"})
+            if ref_guess == 0.0 and rng.below(3) == 0:
+                # a reference of 0 can never improve again with non-negative losses: start afresh (as a new scheduler would)
+                ref_guess = rng.uniform(0.1, 10.0)
+                ops.append({"k": "setref", "x": ref_guess})
     elif mode == "direct":
         for _ in range(steps):
             ops.append(policy_op())
